@@ -320,11 +320,20 @@ pub(super) fn any_state_config() -> SessionStateConfig {
     c
 }
 
+/// The configuration lives in a static slot (one per harness run), not in a `Box`: a struct with
+/// symbolic `Option<String>` fields moved into a heap allocation is mis-modelled by Kani 0.68 /
+/// CBMC 6.11 (a later `String::clone` of a sibling field reads a wrong byte; reproduction in
+/// /verif/notes/kani_repros_strings.rs).
 pub(super) fn leak_config(state: SessionStateConfig, cookie: SessionCookieConfig) -> &'static SessionConfig {
+    static mut SLOT: std::mem::MaybeUninit<SessionConfig> = std::mem::MaybeUninit::uninit();
     let mut c = SessionConfig::new();
     c.state = state;
     c.cookie = cookie;
-    Box::leak(Box::new(c))
+    unsafe {
+        let p = &raw mut SLOT;
+        (*p).write(c);
+        (*p).assume_init_ref()
+    }
 }
 
 // ---------------------------------------------------------------------------------------------
@@ -1233,14 +1242,3 @@ fn c11_finalize_new() {
     kani::cover!(code == 3 && client_vals, "cookie with client-side values");
 }
 
-
-#[kani::proof]
-#[kani::unwind(4)]
-#[kani::stub(std::fmt::format, fmt_stub)]
-fn dbg_f_full() {
-    let w = any_world(default_cookie());
-    let s = build(&w.sh, w.store, w.cfg);
-    let m = w.model;
-    check_step(&w, &s, &m);
-    std::mem::forget(s);
-}
